@@ -65,6 +65,7 @@ type step struct {
 	Batch  []int    `json:"batch,omitempty"`
 	Heads  []int    `json:"heads,omitempty"`
 	Path   []int    `json:"path,omitempty"`
+	Bad    int      `json:"bad,omitempty"`
 	Exp    expState `json:"exp"`
 }
 
@@ -331,7 +332,7 @@ func (rn *runner) runBehaviour(b *behaviour, robj replayObj) (nViol int) {
 		realId[0] = root.Id
 		idOf = func(k int) string { return realId[k] }
 		rawOf = func(k int) *treechangeproto.RawTreeChangeWithId { return raws[k] }
-		build = objecttree.BuildObjectTree
+		build = nil // per replica: a content validator that can refuse one change
 		pretty = func(x string) string {
 			for k, id := range realId {
 				x = strings.ReplaceAll(x, id, fmt.Sprintf("%02d", k))
@@ -347,15 +348,20 @@ func (rn *runner) runBehaviour(b *behaviour, robj replayObj) (nViol int) {
 			return e.raw(chSpec{Id: idOf(k), Prev: intsToIds(idOf, c.Prev), Snap: idOf(c.Snap), IsSnap: c.IsSnap})
 		}
 		root = e.rootRaw(idOf(0), 0)
-		build = objecttree.BuildTestableTree
+		build = mockBuild
 		pretty = func(x string) string { return strings.ReplaceAll(x, prefix, "") }
 	}
 	reps := map[string]*replica{}
 	for i, name := range b.Replicas {
-		r, err := e.newReplica(i, root, build)
+		bf, bad := build, new(string)
+		if rn.signed {
+			bf = rejectingBuild(bad)
+		}
+		r, err := e.newReplica(i, root, bf)
 		if err != nil {
 			e.t.Fatalf("replica: %v", err)
 		}
+		r.reject = bad
 		reps[name] = r
 	}
 	defer func() {
@@ -425,6 +431,34 @@ func (rn *runner) runBehaviour(b *behaviour, robj replayObj) (nViol int) {
 				res, e2 = r.addRaw(intsToIds(idOf, s.Heads), intsToIds(idOf, s.Path), raws...)
 				return e2
 			})
+		case "Reject":
+			// the same payload, but the receiver's validator refuses the change `bad` after attaching
+			// it: chosen ids - a copy citing an acl record the receiver does not know; signed path -
+			// the tree's content validator
+			raws := make([]*treechangeproto.RawTreeChangeWithId, len(s.Batch))
+			for j, k := range s.Batch {
+				raws[j] = rawOf(k)
+				if k == s.Bad && !rn.signed {
+					c := uni[k]
+					raws[j] = e.raw(chSpec{Id: idOf(k), Prev: intsToIds(idOf, c.Prev), Snap: idOf(c.Snap), IsSnap: c.IsSnap, AclHead: unknownAclHead})
+				}
+			}
+			if rn.signed {
+				*r.reject = idOf(s.Bad)
+			}
+			err, pnc, hng = runGuarded(func() error {
+				_, e2 := r.addRaw(intsToIds(idOf, s.Heads), intsToIds(idOf, s.Path), raws...)
+				return e2
+			})
+			*r.reject = ""
+			if err == nil && pnc == nil && !hng {
+				if !drifted {
+					rn.rep.DriftNote("step %d: the specification says the payload is refused (change %d attaches and fails validation), the tree accepted it [%s]", i+1, s.Bad, describeSteps(b, i))
+					drifted = true
+				}
+			}
+			err = nil
+			rn.rep.AddExtra("rejected_deliveries", 1)
 		case "Reopen":
 			err, pnc, hng = runGuarded(r.reopen)
 		default:
@@ -446,7 +480,9 @@ func (rn *runner) runBehaviour(b *behaviour, robj replayObj) (nViol int) {
 		if oerr != nil {
 			e.t.Fatalf("observe: %v", oerr)
 		}
-		if s.Act == "Reopen" {
+		if s.Act == "Reject" {
+			o.Mode = last[s.R].Mode
+		} else if s.Act == "Reopen" {
 			o.Mode = last[s.R].Mode
 			// reopened = live
 			lv := last[s.R]
@@ -460,7 +496,7 @@ func (rn *runner) runBehaviour(b *behaviour, robj replayObj) (nViol int) {
 		for _, v := range checkObservation(idOf(0), o) {
 			viol(v.key, v.desc, i)
 		}
-		for _, v := range checkStep(last[s.R], o, s.Act != "Reopen") {
+		for _, v := range checkStep(last[s.R], o, s.Act == "Add" || s.Act == "Deliver") {
 			viol(v.key, v.desc, i)
 		}
 		last[s.R] = o
@@ -603,6 +639,8 @@ func describeSteps(b *behaviour, upto int) string {
 			fmt.Fprintf(&sb, "%s.Add(%d prev=%v snapBase=%d snapshot=%v) ", s.R, s.Id, s.Prev, s.Base, s.IsSnap)
 		case "Deliver":
 			fmt.Fprintf(&sb, "%s.Deliver(%v heads=%v path=%v) ", s.R, s.Batch, s.Heads, s.Path)
+		case "Reject":
+			fmt.Fprintf(&sb, "%s.DeliverRejected(%v bad=%d heads=%v path=%v) ", s.R, s.Batch, s.Bad, s.Heads, s.Path)
 		default:
 			fmt.Fprintf(&sb, "%s.%s ", s.R, s.Act)
 		}
@@ -616,7 +654,7 @@ func behaviourKey(b *behaviour) string {
 		fmt.Fprintf(&sb, "%d<%v^%d%v#%d;", c.Id, c.Prev, c.Snap, c.IsSnap, c.Size)
 	}
 	for _, s := range b.Steps {
-		fmt.Fprintf(&sb, "%s.%s%d%v%v|", s.R, s.Act, s.Id, s.Batch, s.Path)
+		fmt.Fprintf(&sb, "%s.%s%d%v%v%d|", s.R, s.Act, s.Id, s.Batch, s.Path, s.Bad)
 	}
 	return sb.String()
 }
